@@ -1,4 +1,17 @@
 import Driver.Ops
+import Driver.State
+import Driver.Typed
+open SMD SMD.Wire
 namespace Driver
-def table : List (String × SMD.Wire.P String) := allOps
+
+/-- one protocol step: state-changing ops first, then the pure tables -/
+def step (st : State) (line : String) : State × String :=
+  let cs := line.toList
+  match pWord cs with
+  | some ("typ.schema", rest) =>
+    (match (arg pSchema fun sc => done sc) rest with
+     | some (sc, _) => ({ st with schema := sc }, "ok types=" ++ toString sc.types.length)
+     | none => (st, "bad-args typ.schema"))
+  | _ => (st, runOpWith (allOps ++ opsTyped st) line)
+
 end Driver
